@@ -9,7 +9,7 @@ WORK = os.path.join(VERIF, '.work')
 REPO = os.environ.get('ASCENT_REPO', '/repo')
 
 
-def run_witnesses(ctx, rep, tier):
+def run_witnesses(ctx, rep, tier, kinds=None):
     wdir = os.path.join(WORK, 'wit_' + tier)
     gen = os.path.join(VERIF, 'witnesses', 'gen_witnesses.py')
     shutil.rmtree(wdir, ignore_errors=True)
@@ -64,6 +64,8 @@ def run_witnesses(ctx, rep, tier):
             raise Broken('the twins crate failed to compile for an unknown reason: ' + (twin_errs[0]['message'] if twin_errs else r.stderr[-800:]))
     for w in wits:
         name = w['name']
+        if kinds and w['kind'] not in kinds:
+            continue
         where = 'witness %s/%s/%s' % (w['kind'], w['variant'], w['macro'])
         errs = [m for m in msgs.get(name, []) if m['level'] == 'error']
         compiled = name in finished_ok
